@@ -258,6 +258,18 @@ class Interface(wiring.PureInterface):
         return f"wishbone.Interface({self.signature!r})"
 
 
+def _or_reduce(terms):
+    """OR-reduce ``terms`` as a balanced tree, so that the depth of the resulting expression is
+    logarithmic (and not linear) in the number of terms."""
+    terms = list(terms)
+    if not terms:
+        return 0
+    while len(terms) > 1:
+        terms = [terms[i] | terms[i + 1] if i + 1 < len(terms) else terms[i]
+                 for i in range(0, len(terms), 2)]
+    return terms[0]
+
+
 class Decoder(wiring.Component):
     """Wishbone bus decoder.
 
@@ -343,10 +355,10 @@ class Decoder(wiring.Component):
     def elaborate(self, platform):
         m = Module()
 
-        ack_fanin   = 0
-        err_fanin   = 0
-        rty_fanin   = 0
-        stall_fanin = 0
+        ack_fanin   = []
+        err_fanin   = []
+        rty_fanin   = []
+        stall_fanin = []
 
         with m.Switch(self.bus.adr):
             for sub_map, sub_name, (sub_pat, sub_ratio) in self.bus.memory_map.window_patterns():
@@ -373,21 +385,21 @@ class Decoder(wiring.Component):
                         sub_bus.cyc.eq(self.bus.cyc),
                         self.bus.dat_r.eq(sub_bus.dat_r),
                     ]
-                    ack_fanin |= sub_bus.ack
+                    ack_fanin.append(sub_bus.ack)
                     if hasattr(sub_bus, "err"):
-                        err_fanin |= sub_bus.err
+                        err_fanin.append(sub_bus.err)
                     if hasattr(sub_bus, "rty"):
-                        rty_fanin |= sub_bus.rty
+                        rty_fanin.append(sub_bus.rty)
                     if hasattr(sub_bus, "stall"):
-                        stall_fanin |= sub_bus.stall
+                        stall_fanin.append(sub_bus.stall)
 
-        m.d.comb += self.bus.ack.eq(ack_fanin)
+        m.d.comb += self.bus.ack.eq(_or_reduce(ack_fanin))
         if hasattr(self.bus, "err"):
-            m.d.comb += self.bus.err.eq(err_fanin)
+            m.d.comb += self.bus.err.eq(_or_reduce(err_fanin))
         if hasattr(self.bus, "rty"):
-            m.d.comb += self.bus.rty.eq(rty_fanin)
+            m.d.comb += self.bus.rty.eq(_or_reduce(rty_fanin))
         if hasattr(self.bus, "stall"):
-            m.d.comb += self.bus.stall.eq(stall_fanin)
+            m.d.comb += self.bus.stall.eq(_or_reduce(stall_fanin))
 
         return m
 
